@@ -387,6 +387,24 @@ def _free(run, P):
            construct=f"collapse_constants: _ExpressionCollapsingMapper({fv}) with the "
                      f"parameter as received",
            why=why)
+    # the driver classifies and hoists nothing by itself
+    af, nv = d.params[2], d.params[3]
+    table_loops = [n for n in ast.walk(d.node) if isinstance(n, ast.For)
+                   and isinstance(n.iter, ast.Call) and isinstance(n.iter.func, ast.Attribute)
+                   and n.iter.func.attr == "items"]
+    stray = []
+    for x in ast.walk(d.node):
+        if isinstance(x, ast.Call) and isinstance(x.func, ast.Name) and x.func.id in (af, nv):
+            inside = any(any(x is y for y in ast.walk(b)) for lp in table_loops for b in lp.body)
+            if x.func.id == nv or not inside:
+                stray.append(x)
+    run.ob("C18.free", d, stray[0] if stray else d.node, not stray,
+           construct=f"collapse_constants: {af}() is called only for the entries of the mapper's "
+                     f"table, {nv} is only handed to the mapper"
+                     + (f" (also: {norm(stray[0], 50)})" if stray else ""),
+           why="a shortcut that decides constancy in the driver by-passes the classifier "
+               "(which counts function symbols and every kind of node): an expression "
+               "whose only free variable stands in call position is hoisted whole")
     E = P.cls(f"{MOD}._ExpressionCollapsingMapper")
     ei = E.methods["__init__"]
     fv = ei.params[1]
